@@ -86,6 +86,20 @@ def extra_rules(ctx: Ctx, env: EnvA, sl, root, lits, bool_cells):
         if l.node.op in ("constfill", "const", "loopvar"):
             continue
         matched = [lit.name for lit in lits if leaf_matches(l, lit)[0]]
+        # a conjunct only instantiates a reference literal if it brings no quantity of its own on the tightening side: `capacity -
+        # used - demand >= 0` next to the SDVRP literal `capacity - used > 0` is the parent's CVRP rule, not a second copy of it
+        # (decided per conjunct, independently of which leaf the matcher assigns to the literal)
+        if matched and l.cmp() is not None:
+            pol_ = nf.polarity(l.cmp()[0].to_sym())
+            clean = []
+            for lit in lits:
+                if lit.name in matched and lit.kind == "cmp":
+                    exp_ = lit.expected_signs()
+                    if not any(k_ not in exp_ and -1 in v_ for k_, v_ in pol_.items()):
+                        clean.append(lit.name)
+                elif lit.name in matched:
+                    clean.append(lit.name)
+            matched = clean
         txt = show_leaf(l)
         ctx.ob("C05.b", f"{env.name}.mask:conjunct:{txt[:60]}", bool(matched), sl.where,
                (f"`{txt}` instantiates {matched}" if matched else
